@@ -3,6 +3,7 @@ package props
 
 import (
 	_ "verif/internal/props/c01"
+	_ "verif/internal/props/c02"
 	_ "verif/internal/props/c05"
 	_ "verif/internal/props/c18"
 )
